@@ -141,6 +141,7 @@ func streamC12(env *runEnv) {
 			param      *string
 			qterm      string
 			xff, other string
+			loginFrom  string // address of the login requests when it differs from the download's
 			login      string // ok | none | failed
 		}
 		var reqs []req
@@ -151,6 +152,10 @@ func streamC12(env *runEnv) {
 			}
 		}
 		reqs = append(reqs, req{user: "alice", sub: "alice", login: "none", xff: ""}, req{user: "alice", sub: "alice", login: "failed", xff: ""})
+		// the session logged in from one address and downloads from another: the token binds the downloading one
+		reqs = append(reqs,
+			req{user: "alice", sub: "alice", login: "ok", xff: "", loginFrom: "198.51.100.77", other: "198.51.100.77"},
+			req{user: "alice", sub: "alice", login: "ok", xff: "203.0.113.5", loginFrom: "198.51.100.77", other: "198.51.100.77"})
 		if cf.mode == "signed" {
 			now := time.Now().Unix()
 			for _, qt := range []struct {
@@ -187,7 +192,11 @@ func streamC12(env *runEnv) {
 			}
 			idp.setCode(code, cb)
 			if rq.login != "none" {
+				if rq.loginFrom != "" {
+					b.xff = rq.loginFrom
+				}
 				b.login(g, "/connect", code)
+				b.xff = rq.xff
 			}
 			path := "/connect"
 			if rq.param != nil {
